@@ -2,6 +2,7 @@
   Kernel tie: `Pool.CheckBalance` (x/reward/types/pool.go) = the pool test of the model's reward distribution.
 -/
 import Sge.Gen.Kernels
+import SgeProofs.Lemmas.KernelsTie
 import Sge.Reward
 namespace Sge.KernelsTie
 open Sge Sge.Reward Sge.Gen.Kernels
@@ -10,7 +11,7 @@ open Sge Sge.Reward Sge.Gen.Kernels
 theorem krn_tie_PoolCheckBalance (p : Pool) (toSpend : Int) :
     reward_Pool_CheckBalance p.total p.spent p.withdrawn toSpend = if p.avail < toSpend then none else some () := by
   unfold reward_Pool_CheckBalance reward_Pool_AvailableAmount Pool.avail
-  (repeat' split) <;> first | rfl | (exfalso; omega)
+  krn_close
 
 example : reward_Pool_CheckBalance 100 20 30 50 = some () ∧ reward_Pool_CheckBalance 100 20 30 51 = none := by
   decide +kernel
